@@ -1,6 +1,6 @@
 \* facet "send" (quick): ONE IBC tunnel, active and funded for three packets, fresh port, no channel.  Handshake
-\* (UNORDERED / ORDERED, good / bad version), counterparty answer, channel closed / capability lost, MsgUpdateRoute by
-\* creator and stranger with "", the first and the second channel, IBC / TSS route type, price moves across the hard
+\* (UNORDERED / ORDERED), counterparty answer, channel closed / capability lost, MsgUpdateRoute by
+\* creator and stranger with "", the first and the second channel, price moves across the hard
 \* threshold, triggers, blocks of 1 s and 2 s with interval 2 - free interleaving
 CONSTANTS
   MaxTun = 1
@@ -25,9 +25,9 @@ CONSTANTS
   DtSet = {1, 2}
   MaxCh = 2
   ChanArgs <- Ch_send
-  RkSet = {"ibc", "tss"}
+  RkSet = {"ibc"}
   OrdSet = {"UNORDERED", "ORDERED"}
-  VerSet = {"tunnel-1", "bad"}
+  VerSet = {"tunnel-1"}
   HowSet = {"closed", "nocap"}
   MaxNow = 103
   NTun = 1
